@@ -756,7 +756,8 @@ func plan(thorough bool) []config {
 	if !thorough {
 		return []config{{N: 2, VT: "gcounter", Depth: 6}}
 	}
-	return []config{{N: 2, VT: "gcounter", Depth: 8}, {N: 3, VT: "gcounter", Depth: 6}, {N: 2, VT: "aworset", Depth: 6}, {N: 2, VT: "lww", Depth: 6}}
+	// cheapest first: each run gets an equal share of the time left, the last one inherits the rest
+	return []config{{N: 2, VT: "aworset", Depth: 6}, {N: 2, VT: "lww", Depth: 6}, {N: 3, VT: "gcounter", Depth: 6}, {N: 2, VT: "gcounter", Depth: 8}}
 }
 
 func TestCheck(t *testing.T) {
